@@ -193,6 +193,40 @@ static void mean_case(Tape& t, Ctx& c)
   apply_op(f, v, op); std::vector<long double> r2; vflat(v, r2); for(long i = 0; i < n; ++i) VF_CHECK(fabsl(r2[(size_t)i] - r[(size_t)i]) <= tol / std::max(std::min(pmax, dmax), 1e-3L) + tol, fop_name[op] << " applied twice changes entry " << i);
 }
 
+// ---------------------------------------------------------------- blocked mean filter: every component is an independent mean filter
+static void mean_blocked_case(Tape& t, Ctx& c)
+{
+  constexpr int B = 2; typedef DenseVectorBlocked<DT, IT, B> VB; typedef Tiny::Vector<DT, B> TV;
+  long n = t.sized(1, 30, 3); int vcls = t.pick({2, 1, 3}); int op = t.range(0, 3);
+  std::vector<double> prim[B], dual[B], vv[B]; double solmean[B]; long double vol[B];
+  for(int j = 0; j < B; ++j)
+  {
+    prim[j] = gen_values(t, (size_t)n, vcls); dual[j] = gen_values(t, (size_t)n, vcls); vv[j] = gen_values(t, (size_t)n, vcls); solmean[j] = t.flag(1, 4) ? 0.0 : t.real(vcls);
+    long double va = 0; vol[j] = 0; for(long i = 0; i < n; ++i) { vol[j] += (long double)prim[j][(size_t)i] * dual[j][(size_t)i]; va += fabsl((long double)prim[j][(size_t)i] * dual[j][(size_t)i]); }
+    if(vol[j] < 0.25L * va || vol[j] <= 0) { vol[j] = 0; for(long i = 0; i < n; ++i) { prim[j][(size_t)i] = std::fabs(prim[j][(size_t)i]) + 0.5; dual[j][(size_t)i] = std::fabs(dual[j][(size_t)i]) + 0.25; vol[j] += (long double)prim[j][(size_t)i] * dual[j][(size_t)i]; } }
+  }
+  c.desc.set("filter", "mean_blocked<2>"); c.desc.set("n", n); c.desc.set("op", fop_name[op]);
+  for(int j = 0; j < B; ++j) { std::string q = std::to_string(j); c.desc.set("prim" + q, J(prim[j])); c.desc.set("dual" + q, J(dual[j])); c.desc.set("v" + q, J(vv[j])); c.desc.set("sol_mean" + q, solmean[j]); }
+  c.op = std::string(fop_name[op]) + "@mean_blocked"; c.label(std::string("op:") + fop_name[op]); c.label(solmean[0] != 0.0 || solmean[1] != 0.0 ? "sol_mean:nonzero" : "sol_mean:zero"); c.nontrivial = n >= 2; c.announce();
+  auto fillb = [&](VB& x, const std::vector<double>* src) { DT* e = x.template elements<Perspective::pod>(); for(long i = 0; i < n; ++i) for(int j = 0; j < B; ++j) e[B * i + j] = src[j][(size_t)i]; };
+  VB vp((Index)n), vd((Index)n), v((Index)n); fillb(vp, prim); fillb(vd, dual); fillb(v, vv); TV sm; for(int j = 0; j < B; ++j) sm[j] = solmean[j];
+  MeanFilterBlocked<DT, IT, B> f(std::move(vp), std::move(vd), sm);
+  global_wrap(f, v, op, "mean_blocked"); apply_op(f, v, op);
+  const DT* r = v.template elements<Perspective::pod>();
+  for(int j = 0; j < B; ++j)
+  {
+    long double rp = 0, rd = 0, vmax = 0, pmax = 0, dmax = 0;
+    for(long i = 0; i < n; ++i) { rp += (long double)r[B * i + j] * prim[j][(size_t)i]; rd += (long double)r[B * i + j] * dual[j][(size_t)i]; vmax = std::max(vmax, fabsl((long double)vv[j][(size_t)i])); pmax = std::max(pmax, fabsl((long double)prim[j][(size_t)i])); dmax = std::max(dmax, fabsl((long double)dual[j][(size_t)i])); }
+    long double amp = (long double)n * pmax * dmax / fabsl(vol[j]); long double tol = 64.0L * (n + 4) * U * (long double)n * (vmax + fabsl((long double)solmean[j]) * pmax) * std::max(pmax, dmax) * (1.0L + amp) * (1.0L + amp);
+    if(op == 0 || op == 2) VF_CHECK(fabsl(rp) <= tol, fop_name[op] << ": component " << j << " <v,prim> = " << (double)rp << " tol " << (double)tol);
+    else if(op == 3) VF_CHECK(fabsl(rd) <= tol, "filter_cor: component " << j << " <v,dual> = " << (double)rd << " tol " << (double)tol);
+    else VF_CHECK(fabsl(rd / vol[j] - (long double)solmean[j]) <= tol / fabsl(vol[j]), "filter_sol: component " << j << " mean = " << (double)(rd / vol[j]) << " expected " << solmean[j] << " (volume " << (double)vol[j] << ")");
+    // the scalar mean filter built from component j gives the same component (both implement the same projection; different rounding only)
+    DV sp((Index)n), sd((Index)n), sv((Index)n); vfill_all(sp, prim[j]); vfill_all(sd, dual[j]); vfill_all(sv, vv[j]); MeanFilter<DT, IT> sf(std::move(sp), std::move(sd), DT(solmean[j])); apply_op(sf, sv, op);
+    for(long i = 0; i < n; ++i) VF_CHECK(fabsl((long double)r[B * i + j] - (long double)sv.elements()[i]) <= tol / std::max(std::min(pmax, dmax), 1e-3L) + tol, fop_name[op] << ": component " << j << " entry " << i << " = " << r[B * i + j] << ", the scalar mean filter of that component gives " << sv.elements()[i]);
+  }
+}
+
 // ---------------------------------------------------------------- composed filters: equal to applying the components in order
 static void composed_case(Tape& t, Ctx& c)
 {
@@ -258,7 +292,7 @@ int main(int argc, char** argv)
   std::vector<Target> tg;
   tg.push_back({"unit", unit_case, 96, 16});
   tg.push_back({"blocked", [](Tape& t, Ctx& c) { if(t.flag()) blocked_case<2>(t, c); else blocked_case<3>(t, c); }, 96, 12});
-  tg.push_back({"mean", mean_case, 96, 6});
+  tg.push_back({"mean", [](Tape& t, Ctx& c) { if(t.flag(1, 3)) mean_blocked_case(t, c); else mean_case(t, c); }, 96, 12});
   tg.push_back({"composed", composed_case, 96, 8});
   return main_impl(argc, argv, tg);
 }
